@@ -28,6 +28,10 @@ func (m *Mutex) Lock() {
 			return
 		}
 		s.point(&lockOp{m})
+		if s.nmtx < len(s.mtx) {
+			s.mtx[s.nmtx] = m
+			s.nmtx++
+		}
 	} else if m.locked {
 		panic("vsyncrt: Mutex.Lock would block outside a controlled execution")
 	}
@@ -103,6 +107,10 @@ func (m *RWMutex) Lock() {
 			return
 		}
 		s.point(&wlockOp{m})
+		if s.nrwm < len(s.rwm) {
+			s.rwm[s.nrwm] = m
+			s.nrwm++
+		}
 	} else if m.writer || m.readers > 0 {
 		panic("vsyncrt: RWMutex.Lock would block outside a controlled execution")
 	}
@@ -138,6 +146,10 @@ func (m *RWMutex) RLock() {
 			return
 		}
 		s.point(&rlockOp{m})
+		if s.nrwm < len(s.rwm) {
+			s.rwm[s.nrwm] = m
+			s.nrwm++
+		}
 	} else if m.writer {
 		panic("vsyncrt: RWMutex.RLock would block outside a controlled execution")
 	}
